@@ -90,9 +90,11 @@ def unpackBits (msb : Bool) : List Nat → List Bool
     let c := bitsOfByte x 8
     (if msb then c.reverse else c) ++ unpackBits msb xs
 
+/-- `n` repetitions of `f`.  The tail sits behind a `dep` on the empty format so that it is only
+    built when decoding gets there (a count field of 2^32-1 must not build 2^32 nodes). -/
 def Fmt.rep : Nat → Fmt → Fmt
   | 0, _ => .unit
-  | n + 1, f => .pair f (Fmt.rep n f)
+  | n + 1, f => .pair f (.dep .unit (fun _ => Fmt.rep n f))
 
 def Fmt.seq : List Fmt → Fmt
   | [] => .unit
